@@ -366,7 +366,7 @@ func (c *Conn) handleFrames(now time.Time, dgram *datagram, ptype packetType, sp
 			if !frameOK(c, ptype, __01) {
 				return
 			}
-			_, _, n = consumeStreamDataBlockedFrame(payload)
+			n = c.handleStreamDataBlockedFrame(now, payload)
 		case frameTypeNewConnectionID:
 			if !frameOK(c, ptype, __01) {
 				return
@@ -506,6 +506,18 @@ func (c *Conn) handleResetStreamFrame(now time.Time, space numberSpace, payload 
 			c.abort(now, err)
 		}
 	}
+	return n
+}
+
+func (c *Conn) handleStreamDataBlockedFrame(now time.Time, payload []byte) int {
+	id, _, n := consumeStreamDataBlockedFrame(payload)
+	if n < 0 {
+		return -1
+	}
+	// We don't act on the frame, but it references (and may create) a stream:
+	// apply the stream ID, direction, and stream limit checks.
+	// https://www.rfc-editor.org/rfc/rfc9000.html#section-19.13-5
+	c.streamForFrame(now, id, recvStream)
 	return n
 }
 
